@@ -9,6 +9,7 @@ Rule-free corpus files (runs in which only layout stages changed the text) are v
 from __future__ import annotations
 
 import random
+import re
 import sys
 import textwrap
 
@@ -32,6 +33,9 @@ FEATURE_TEXT = {
     "crlf_escape": "escapes \\r\\n \\t kept",
     "indent8": "        eight spaces then text",
 }
+
+
+MULTI_PREFIX = re.compile("[rbf]?(" + chr(34) * 3 + "|" + chr(39) * 3 + ")")
 
 
 def render(case: dict) -> str:
@@ -99,6 +103,21 @@ def render(case: dict) -> str:
         if kind == "comment":
             return lit_stmt + "\n"
         return "MESSAGES = [\n    \"short\",\n\n    (\"greeting\" , " + lit + "),\n    \"tail\",\n]\nprint(MESSAGES)\n"
+    if place == "nested_last_stmt":
+        # a statement nested in an already well-formatted def, last of its block but not alone, whose literal continues at column 0
+        if kind == "comment" or not MULTI_PREFIX.match(lit):
+            return lit_stmt + "\n"
+        return ("def holder(flag):\n    if flag:\n        print(\"first\")\n        print(" + lit + ")\n    return 1\n\n\nprint(holder(True))\n")
+    if place == "after_import_in_def":
+        if kind == "comment" or not MULTI_PREFIX.match(lit):
+            return lit_stmt + "\n"
+        return "def holder():\n    import os\n    print(" + lit + ")\n    return os.sep\n\n\nprint(holder())\n"
+    if place == "fsegment":
+        # the value of a plain literal also occurs as the text segment of f-strings, at least as often, and reads as an expression
+        if kind != "single":
+            return lit_stmt + "\n"
+        return ("level = 'error'\ncount = '42'\nflag = 'True'\nprint(level, count, flag, " + lit + ")\nprint(f\"error{1} 42\")\nprint(f'error{2}')\n"
+                "print(f\"42{3}\")\nprint(f'True{4}')\nprint(f\"42{5}True\")\n")
     if place == "dict_value":
         if kind == "comment":
             return lit_stmt + "\n"
@@ -109,7 +128,7 @@ def render(case: dict) -> str:
 def layout_cases(rep: Report, t: str):
     kinds = '{"triple", "triple_single", "raw_triple", "bytes_triple", "fstring_triple", "docstring", "single", "concat", "comment"}'
     feats = '{"tab", "trailing", "blanks3", "blanks2", "blank1", "long", "backslash", "hash", "crlf_escape", "indent8"}'
-    places = '{"module", "in_def", "after_decorator", "between_imports", "call_arg", "dict_value", "list_elem_blank", "kwarg_blank", "tuple_elem_blank"}'
+    places = '{"module", "in_def", "after_decorator", "between_imports", "call_arg", "dict_value", "list_elem_blank", "kwarg_blank", "tuple_elem_blank", "nested_last_stmt", "after_import_in_def", "fsegment"}'
     lens, maxf = ("{60, 100}", 2) if t == "quick" else ("{60, 79, 100}", 3)
     cfg = "\n".join(["CONSTANTS", f"  Kinds = {kinds}", f"  Features = {feats}", f"  Places = {places}",
                      f"  LineLengths = {lens}", f"  MaxFeatures = {maxf}", "INIT Init", "NEXT Next", "INVARIANT Dump",
